@@ -1,2 +1,77 @@
-(** C12 - placeholder while the proofs are being written. *)
-From E57 Require Import Base.Prelude.
+(** C12 - Bit-packed integers: exact width, bit order and decode at any alignment.
+    Statements only; every proof is an [exact] of a lemma proved in Proofs/. *)
+From E57 Require Import Base.Prelude Model.BsWrite Model.BsRead Model.Record Spec.BitSpec
+  Proofs.BitWidthProofs Proofs.BitWriteProofs Proofs.BitReadProofs Proofs.BitCodecProofs.
+
+(** An integer or scaled integer declared min..max occupies exactly the least
+    number of bits w with max - min < 2^w: 0 when equal, 64 for the full range. *)
+Theorem C12_width_is_spec : forall mn mx : Z,
+  in_i64 mn = true -> in_i64 mx = true -> (mn <= mx)%Z -> integer_bits mn mx = spec_width mn mx.
+Proof. exact integer_bits_spec. Qed.
+
+Theorem C12_width_exact : forall mn mx : Z,
+  in_i64 mn = true -> in_i64 mx = true -> (mn <= mx)%Z ->
+  let w := spec_width mn mx in
+  (mx - mn < 2 ^ Z.of_N w)%Z /\ (0 < w -> (2 ^ (Z.of_N w - 1) <= mx - mn)%Z) /\ w <= 64 /\ (w = 0 <-> mn = mx).
+Proof. exact spec_width_exact. Qed.
+
+(** The stream the writer produces for one attribute is, byte for byte, the
+    specified one: value - minimum in exactly w bits, least significant bit
+    first, contiguous across values and bytes; floats 4 / 8 little-endian bytes
+    (the float case of [value_bits] is the 32/64 bits of the pattern). *)
+Theorem C12_stream_layout : forall t vs,
+  type_ok t = true -> Forall (fun v => in_range t v = true) vs ->
+  exists b, write_values t vs bsw_new = Ok b /\ bsw_holds b (stream_bits t vs) /\
+            bsw_buffer b = spec_stream_bytes t vs.
+Proof. exact writer_stream. Qed.
+
+(** Writing one more value appends exactly its bits, whatever the bit phase the
+    buffer is in; draining full bytes between values (packet boundaries) loses nothing. *)
+Theorem C12_write_any_phase : forall t v b bits,
+  type_ok t = true -> in_range t v = true -> bsw_holds b bits ->
+  exists b', dtype_write t v b = Ok b' /\ bsw_holds b' (bits ++ value_bits t v).
+Proof. exact dtype_write_holds. Qed.
+
+Theorem C12_drain_full_bytes : forall b bits,
+  bsw_holds b bits ->
+  let k := (8 * (length bits / 8))%nat in
+  exists b', bsw_get_full_bytes b = Ok (b', bytes_of_bits (firstn k bits)) /\ bsw_holds b' (skipn k bits).
+Proof. exact get_full_bytes_holds. Qed.
+
+(** Extraction returns bits [o, o+w) of the stream as a number for every
+    width up to 64 and every bit offset, and [None] exactly when fewer bits are left. *)
+Theorem C12_extract_any_phase : forall s bits w,
+  bsr_holds s bits -> w <= 64 ->
+  (N.of_nat (length bits) < w -> bsr_extract s w = Ok (s, None)) /\
+  (w <= N.of_nat (length bits) ->
+     exists s' v, bsr_extract s w = Ok (s', Some v) /\
+       v mod 2 ^ w = num_of_bits (firstn (N.to_nat w) bits) /\
+       bsr_holds s' (skipn (N.to_nat w) bits)).
+Proof. exact bsr_extract_holds. Qed.
+
+(** Every stream decodes to the values that were encoded, for every width,
+    every starting bit position and every way the byte stream is cut into
+    packets (chunks of any length, empty ones included, values straddling cuts). *)
+Theorem C12_decode_any_cut : forall t vs (cs : list (list N)),
+  type_ok t = true -> 0 < spec_bit_size t -> Forall (fun v => in_range t v = true) vs ->
+  concat cs = spec_stream_bytes t vs ->
+  exists s out, feed_chunks t cs bsr_new [] = Ok (s, out) /\ firstn (length vs) out = vs.
+Proof. exact decode_any_cut. Qed.
+
+(** Unpacking never fails or panics and consumes exactly the complete groups,
+    whatever the bytes are (no assumption on the values). *)
+Theorem C12_unpack_total : forall t s bits,
+  type_ok t = true -> 0 < spec_bit_size t -> bsr_holds s bits ->
+  let w := N.to_nat (spec_bit_size t) in
+  let n := (length bits / w)%nat in
+  exists s' vs, unpack_type t s = Ok (s', vs) /\ length vs = n /\ bsr_holds s' (skipn (n * w) bits).
+Proof. exact unpack_type_total. Qed.
+
+Print Assumptions C12_width_is_spec.
+Print Assumptions C12_width_exact.
+Print Assumptions C12_stream_layout.
+Print Assumptions C12_write_any_phase.
+Print Assumptions C12_drain_full_bytes.
+Print Assumptions C12_extract_any_phase.
+Print Assumptions C12_decode_any_cut.
+Print Assumptions C12_unpack_total.
